@@ -15,7 +15,8 @@ EXTENDS OciFilter, OciRegistryMC
 CONSTANTS MCKinds,      \* subset of {"checker", "select", "sub"}
           ErrIds,       \* policy error identities in play
           MaxSteps,     \* calls per behaviour
-          HostileSteps  \* hostile caller names are used in the first HostileSteps calls
+          HostileSteps, \* hostile caller names are used in the first HostileSteps calls
+          AllScopes     \* FALSE: calls with a hostile name are explored under the richest context scope only
 
 VARIABLES kind, last, step
 mcvars == <<fvars, kind, last, step>>
@@ -36,11 +37,16 @@ Aimed == {Join(Up, Fooey), Join(Up, Foo), Join(Join(Aa, Up), Join(Up, Fooey)), J
           Join(Foo, Aa), Join(Foo, Bb)}
 Fixed == ("r1" :> <<114, 49>> @@ "r2" :> <<114, 50>> @@ "r3" :> <<114, 51>> @@ "r4" :> <<114, 52>> @@ "*" :> <<42>>)
 AllNames == N1 \cup N2 \cup N3 \cup Aimed
-MCChars == [n \in {x.s : x \in AllNames} \cup DOMAIN Fixed |->
+MCChars0 == [n \in {x.s : x \in AllNames} \cup DOMAIN Fixed |->
               IF n \in DOMAIN Fixed THEN Fixed[n] ELSE (CHOOSE x \in AllNames : x.s = n).c]
-FPos == [r |-> [x \in Repos |-> 2 * Cardinality({y \in Repos : y = x \/ Less(Chars[y], Chars[x])})],
+FPos0 == [r |-> [x \in Repos |-> 2 * Cardinality({y \in Repos : y = x \/ Less(Chars[y], Chars[x])})],
          t |-> [x \in Tags |-> IF x = "t1" THEN 2 ELSE 4],
          c |-> MCPos.c]
+\* (TLC re-evaluates a definition substituted for a constant with <- on every reference, but
+\* caches a constant definition that is referenced by name: hence the indirections)
+MCChars == MCChars0
+FPos == FPos0
+FCat == MCCat
 \* caller strings: everything hostile, and the valid names the backend universe has room for
 CallerNames == {n \in {x.s : x \in AllNames} : ~ValidName(n) \/ SubName(n) \in Repos}
 HostileNames == {n \in CallerNames : ~ValidName(n)}
@@ -80,9 +86,10 @@ Entries(o) ==
   ELSE {o.r} \X Kinds
 TableOf(f) == [n \in Repos \cup {Star} |-> [k \in Kinds |-> IF <<n, k>> \in DOMAIN f THEN f[<<n, k>>] ELSE PolOk]]
 NoScope == [unl |-> FALSE, set |-> {}]
-MCScopes == {NoScope, [unl |-> TRUE, set |-> {}],
-             [unl |-> FALSE, set |-> {<<"repository", "a", "pull">>, <<"repository", "../fooey", "push">>,
-                                      <<"repository", "", "pull">>, <<"registry", "catalog", "*">>}]}
+RichScope == [unl |-> FALSE, set |-> {<<"repository", "a", "pull">>, <<"repository", "../fooey", "push">>,
+                                     <<"repository", "", "pull">>, <<"registry", "catalog", "*">>}]
+MCScopes == {NoScope, [unl |-> TRUE, set |-> {}], RichScope}
+ScopesFor(o) == IF AllScopes \/ OpNames(o) \cap HostileNames = {} THEN MCScopes ELSE {RichScope}
 
 SubOpsFor(n) == Range(OpsSeqOn(n)) \cup {Mount(n, "a"), Mount("a", n), Mount(n, n)}
 SubOps(names) == UNION {SubOpsFor(n) : n \in names} \cup {[op |-> "ListRepos", startpos |-> s] : s \in 0..(2 * Cardinality(ViewRepos) + 1)}
@@ -92,7 +99,9 @@ Populated(pop) ==
   /\ blobs = [r \in Repos |-> IF r \in pop THEN {"b1"} ELSE {}]
   /\ mans = [r \in Repos |-> IF r \in pop THEN ("img" :> "image") ELSE <<>>]
   /\ tags = [r \in Repos |-> IF r \in pop THEN ("t1" :> [c |-> "img", mt |-> "image"]) ELSE <<>>]
-  /\ ups = [r \in Repos |-> <<>>]
+  \* an upload session is already open in the populated repositories, so that the BlobWriter
+  \* methods are enabled from the first step on
+  /\ ups = [r \in Repos |-> IF r \in pop THEN ("u1" :> NewUp(0)) ELSE <<>>]
   /\ touched = pop
 NoCall == [o |-> [op |-> "none"], pol |-> <<>>, sc |-> NoScope, allow |-> {}]
 FInit ==
@@ -114,7 +123,7 @@ FNext ==
                /\ CheckedApply(o, SelPol(allow, Repos), NoScope)
                /\ last' = [o |-> o, pol |-> SelPol(allow, Repos), sc |-> NoScope, allow |-> allow]
        [] kind = "sub" ->
-            \E o \in SubOps(IF step < HostileSteps THEN CallerNames ELSE CallerNames \ HostileNames) : \E sc \in MCScopes :
+            \E o \in SubOps(IF step < HostileSteps THEN CallerNames ELSE CallerNames \ HostileNames) : \E sc \in ScopesFor(o) :
                /\ SubApply(o, sc)
                /\ last' = [o |-> o, pol |-> <<>>, sc |-> sc, allow |-> {}]
 FSpec == FInit /\ [][FNext]_mcvars
